@@ -364,13 +364,16 @@ func (w *fsmWorld) keep() (int, bool) {
 
 // real public-polynomial encodings (dkg.BLSKeyring.PubPolyBytes): a 2-commitment polynomial and
 // the same polynomial extended by a third commitment
-var polyTokA, polyTokExt = func() (string, string) {
+var polyTokA, polyTokExt, polyTokC0, polyTokC1 = func() (string, string, string, string) {
 	suite := bls12381.NewBLS12381Suite(nil).(pairing.Suite)
 	g := suite.G1()
 	c := []kyber.Point{g.Point().Mul(g.Scalar().SetInt64(11), nil), g.Point().Mul(g.Scalar().SetInt64(22), nil), g.Point().Mul(g.Scalar().SetInt64(33), nil)}
 	a, _ := (&dkg.BLSKeyring{PubPoly: share.NewPubPoly(g, nil, c[:2])}).PubPolyBytes()
 	e, _ := (&dkg.BLSKeyring{PubPoly: share.NewPubPoly(g, nil, c)}).PubPolyBytes()
-	return hx(a), hx(e)
+	// the same polynomial with only its constant term / only its last coefficient replaced
+	c0, _ := (&dkg.BLSKeyring{PubPoly: share.NewPubPoly(g, nil, []kyber.Point{c[2], c[1]})}).PubPolyBytes()
+	c1, _ := (&dkg.BLSKeyring{PubPoly: share.NewPubPoly(g, nil, []kyber.Point{c[0], c[2]})}).PubPolyBytes()
+	return hx(a), hx(e), hx(c0), hx(c1)
 }()
 
 type alphaItem struct {
@@ -418,12 +421,18 @@ func alphabet(n int, full bool) []alphaItem {
 	add("event_sig_proposal_confirm_by_participant", "sigPart", "0", "z")
 	add("event_dkg_commit_confirm_received", "commit", "0", "x", T(2))
 	add("event_dkg_commit_confirm_received", "commit", "0", "x01", late)
+	// a contribution without content (every phase's request must carry its payload)
+	add("event_dkg_deal_confirm_received", "deal", "0", "x", T(3))
+	add("event_dkg_response_confirm_received", "response", "0", "x", T(4))
+	add("event_dkg_master_key_confirm_received", "masterKey", "0", "x", T(5), polyTokA)
 	add("event_dkg_deal_confirm_received", "deal", "0", "x02", late)
 	add("event_dkg_response_confirm_received", "response", "0", "x03", late)
 	add("event_dkg_master_key_confirm_received", "masterKey", "0", "xaa", late, polyTokA)
 	add("event_dkg_master_key_confirm_received", "masterKey", "1", "xbb", T(5), polyTokA)   // mismatching key
 	add("event_dkg_master_key_confirm_received", "masterKey", "1", "xaa", T(5), polyTokExt) // same key, the polynomial extended by one commitment
 	add("event_dkg_master_key_confirm_received", "masterKey", "1", "xaa", T(5), "x51")      // same key, junk polynomial
+	add("event_dkg_master_key_confirm_received", "masterKey", "1", "xaa", T(5), polyTokC0)  // same key, a polynomial that differs in its constant term only
+	add("event_dkg_master_key_confirm_received", "masterKey", "1", "xaa", T(5), polyTokC1)  // … in its last coefficient only
 	add("event_dkg_master_key_confirm_received", "masterKey", "1", "xaa", T(5), "x")        // same key, NO polynomial (an old machine, or a deviating one)
 	if n > 2 {
 		add("event_dkg_master_key_confirm_received", "masterKey", fmt.Sprint(n-1), "xaa", T(5), "x") // … as the last announcement
